@@ -20,6 +20,7 @@ class Replay:
         self.problems = []   # (signature, message)
         self.steps = 0
         self.ties = 0
+        self.pass_mismatch = 0
         self.temps = 0       # rewrites that introduced temporaries
         self.tmap = {}       # R3 temp name -> engine text
         self.rmap = {}       # engine text -> R3 temp name
@@ -115,8 +116,9 @@ def replay(files, main, o, budget, check_final=True, max_steps=400):
         pas, d, loc, ln, size_after = ev[:5]
         stream_after = strip_eof(ev[5]) if len(ev) > 5 else None
         if pas != k:
-            rp.bad("pass-numbering", "rewrite %d happened in pass %d (exactly one rewrite per pass expected)" % (k, pas))
-            return rp
+            # the engine's own pass counter is not part of any property: steps are identified by their order; what a
+            # step that is not charged to the budget breaks is C11's rewrite count and C10's names, judged there
+            rp.pass_mismatch += 1
         cands = RM.candidates(cur, usable)
         b = RM.best(cands)
         if not b:
